@@ -162,7 +162,7 @@ Proof.
   assert (0 <= (fold_left Z.max l t - fold_left Z.min l t) / 86400) by (apply Z.div_pos; lia). lia.
 Qed.
 
-Lemma n_days_total_span : forall fr, n_days_total fr = span_of (complete fr) (f_rows fr).
+Lemma n_days_total_span : forall ign fr, n_days_total ign fr = span_of (complete ign fr) (f_rows fr).
 Proof. reflexivity. Qed.
 
 Lemma span_none_iff : forall c rows, span_of c rows = None <-> forall r, In r rows -> c r = false.
@@ -236,20 +236,20 @@ Proof. intros v v' rows H. unfold valid_secs. rewrite (map_ext v v' H). reflexiv
 
 Definition offcycle_dq (p : params) (f : family) (cx : ctx) : bool := is_billing f && x_offcycle cx && p_offcycle_dq p.
 
-Lemma dataclass_accepts : forall p f w el cx fr,
+Lemma criteria_accepts : forall p f w el cx fr,
   is_reporting_flag p f w = true \/ f_has_obs fr = true ->
-  exists dq ws, dataclass p f w el cx fr = Accepted dq ws.
+  exists dq ws, criteria p f w el cx fr = Accepted dq ws.
 Proof.
-  intros p f w el cx fr H. unfold dataclass, dataclass_with_counts.
+  intros p f w el cx fr H. unfold criteria, dataclass_with_counts.
   assert (E : negb (is_reporting_flag p f w) && negb (f_has_obs fr) = false).
   { destruct H as [H|H]; rewrite H; simpl; [reflexivity|apply andb_false_r]. }
   rewrite E. destruct (run_sequence _ _ _ _ _ _) as [dq ws]. eexists. eexists. reflexivity.
 Qed.
 
-Lemma dataclass_raises : forall p f w el cx fr e,
-  dataclass p f w el cx fr = Raised e <-> e = AttributeError /\ is_reporting_flag p f w = false /\ f_has_obs fr = false.
+Lemma criteria_raises : forall p f w el cx fr e,
+  criteria p f w el cx fr = Raised e <-> e = AttributeError /\ is_reporting_flag p f w = false /\ f_has_obs fr = false.
 Proof.
-  intros p f w el cx fr e. unfold dataclass, dataclass_with_counts.
+  intros p f w el cx fr e. unfold criteria, dataclass_with_counts.
   destruct (is_reporting_flag p f w) eqn:Er; destruct (f_has_obs fr) eqn:Eo; cbn [negb andb];
     try (destruct (run_sequence _ _ _ _ _ _) as [dq ws]; split; [discriminate|intros [_ [? ?]]; discriminate]).
   split; [intro H; injection H as <-; tauto|intros [-> _]; reflexivity].
@@ -257,13 +257,13 @@ Qed.
 
 Lemma in_dq_of_dataclass : forall p f w el cx fr n,
   is_reporting_flag p f w = true \/ f_has_obs fr = true ->
-  (In n (dq_of (dataclass p f w el cx fr)) <->
+  (In n (dq_of (criteria p f w el cx fr)) <->
    (exists k, check_of n = Some k /\ In k (sequence_of p f w) /\
       check_cond p (is_reporting_flag p f w) (electric_flag f w el) fr
                  (compute_counts p (is_reporting_flag p f w) fr) k = true)
    \/ (n = OffcycleReads /\ offcycle_dq p f cx = true)).
 Proof.
-  intros p f w el cx fr n H. unfold dataclass, dataclass_with_counts.
+  intros p f w el cx fr n H. unfold criteria, dataclass_with_counts.
   assert (E : negb (is_reporting_flag p f w) && negb (f_has_obs fr) = false).
   { destruct H as [H|H]; rewrite H; simpl; [reflexivity|apply andb_false_r]. }
   rewrite E.
@@ -280,9 +280,9 @@ Proof.
     rewrite Ho. left. reflexivity.
 Qed.
 
-Lemma nodup_dq_of_dataclass : forall p f w el cx fr, NoDup (dq_of (dataclass p f w el cx fr)).
+Lemma nodup_dq_of_criteria : forall p f w el cx fr, NoDup (dq_of (criteria p f w el cx fr)).
 Proof.
-  intros. unfold dataclass, dataclass_with_counts.
+  intros. unfold criteria, dataclass_with_counts.
   destruct (negb (is_reporting_flag p f w) && negb (f_has_obs fr)); [constructor|].
   destruct (run_sequence _ _ _ _ _ _) as [dq ws]. cbn [dq_of]. apply nodup_canon_dq.
 Qed.
@@ -291,7 +291,7 @@ Qed.
 
 Lemma compute_counts_baseline : forall p fr, p_tcov_num p = 9 -> p_tcov_den p = 10 ->
   compute_counts p false fr =
-  {| c_total := span_of (complete fr) (f_rows fr);
+  {| c_total := span_of (complete false fr) (f_rows fr);
      c_valid := whole_days (fun r => usage_present r && temp_valid90 r) (f_rows fr);
      c_meter := whole_days usage_present (f_rows fr);
      c_temp := whole_days temp_valid90 (f_rows fr) |}.
@@ -304,19 +304,23 @@ Qed.
 
 Lemma compute_counts_reporting : forall p fr, p_tcov_num p = 9 -> p_tcov_den p = 10 ->
   compute_counts p true fr =
-  {| c_total := span_of (complete fr) (f_rows fr);
+  {| c_total := span_of (complete (p_span_ignores_usage p) fr) (f_rows fr);
      c_valid := whole_days temp_valid90 (f_rows fr);
      c_meter := 0;
      c_temp := whole_days temp_valid90 (f_rows fr) |}.
 Proof.
-  intros p fr Hn Hd. unfold compute_counts, whole_days. f_equal.
+  intros p fr Hn Hd. unfold compute_counts, whole_days. cbn [andb]. f_equal.
   - f_equal. apply valid_secs_ext. intro r. unfold valid_row. apply valid_temp_row_spec; assumption.
   - f_equal. apply valid_secs_ext. intro r. apply valid_temp_row_spec; assumption.
 Qed.
 
+Lemma complete_baseline : forall fr, f_has_obs fr = true ->
+  forall r, complete false fr r = has_data_baseline fr r.
+Proof. intros fr H r. unfold complete, has_data_baseline, usage_present. rewrite H. reflexivity. Qed.
+
 Lemma baseline_membership : forall p f el cx fr n,
   params_ok p = true -> f_has_obs fr = true ->
-  (In n (dq_of (dataclass p f Baseline el cx fr)) <->
+  (In n (dq_of (criteria p f Baseline el cx fr)) <->
    violates_baseline f el fr n \/ (n = OffcycleReads /\ offcycle_dq p f cx = true)).
 Proof.
   intros p f el cx fr n Hok Hobs. pose proof (params_ok_facts p Hok) as F. destruct F as [pf_max0 pf_min0 pf_cn0 pf_cd0 pf_tn0 pf_td0 pf_base0 pf_rep0].
@@ -324,14 +328,17 @@ Proof.
   cbn [is_reporting_flag sequence_of electric_flag].
   assert (Eel : electric_flag f Baseline el = el) by (destruct f; reflexivity).
   rewrite (compute_counts_baseline p fr pf_tn0 pf_td0).
-  assert (Hpos : forall d, span_of (complete fr) (f_rows fr) = Some d -> 1 <= d) by (intros d; apply span_of_pos).
+  assert (Espan : span_of (complete false fr) (f_rows fr) = span_of (has_data_baseline fr) (f_rows fr))
+    by (apply span_ext; intros r _; apply complete_baseline; exact Hobs).
+  rewrite Espan.
+  assert (Hpos : forall d, span_of (has_data_baseline fr) (f_rows fr) = Some d -> 1 <= d) by (intros d; apply span_of_pos).
   apply or_iff_compat_r.
-  unfold violates_baseline, has_data_baseline.
+  unfold violates_baseline.
   split.
   - intros [k [Ho [Hin Hc]]]. apply pf_base0 in Hin.
     destruct n; simpl in Ho; try discriminate Ho; injection Ho as <-; cbn [check_cond c_total c_valid c_meter c_temp negb andb] in Hc.
     + apply negb_true_iff in Hc. apply span_none_iff.
-      destruct (span_of (complete fr) (f_rows fr)); [discriminate Hc|reflexivity].
+      destruct (span_of (has_data_baseline fr) (f_rows fr)); [discriminate Hc|reflexivity].
     + apply andb_true_iff in Hc. destruct Hc as [He Hn]. apply negb_true_iff in He.
       split; [exact He|]. apply has_negative_spec. exact Hn.
     + apply (length_bad_spec p _ pf_max0 pf_min0). exact Hc.
@@ -369,18 +376,19 @@ Qed.
 
 (* ------------------------------------------------------------------ reporting *)
 
-Lemma complete_reporting : forall fr, usage_irrelevant fr ->
-  forall r, In r (f_rows fr) -> complete fr r = has_data_reporting fr r.
+Lemma complete_reporting : forall ign fr, ign = true \/ usage_irrelevant fr ->
+  forall r, In r (f_rows fr) -> complete ign fr r = has_data_reporting fr r.
 Proof.
-  intros fr H r Hin. unfold complete, has_data_reporting.
-  assert (E : negb (f_has_obs fr) || is_some (r_obs r) = true).
-  { destruct H as [H|H]; [rewrite H; reflexivity|]. rewrite (H r Hin). apply orb_true_r. }
+  intros ign fr H r Hin. unfold complete, has_data_reporting.
+  assert (E : ign || negb (f_has_obs fr) || is_some (r_obs r) = true).
+  { destruct H as [H|[H|H]]; [rewrite H; reflexivity|rewrite H; apply orb_true_iff; left; apply orb_true_r|].
+    rewrite (H r Hin). apply orb_true_r. }
   rewrite E. reflexivity.
 Qed.
 
 Lemma reporting_membership : forall p f el cx fr n,
-  params_ok p = true -> p_reporting_flag p f = true -> usage_irrelevant fr ->
-  (In n (dq_of (dataclass p f Reporting el cx fr)) <->
+  params_ok p = true -> p_reporting_flag p f = true -> p_span_ignores_usage p = true \/ usage_irrelevant fr ->
+  (In n (dq_of (criteria p f Reporting el cx fr)) <->
    violates_reporting f fr n \/ (n = OffcycleReads /\ offcycle_dq p f cx = true)).
 Proof.
   intros p f el cx fr n Hok Hflag Hus. pose proof (params_ok_facts p Hok) as F. destruct F as [pf_max0 pf_min0 pf_cn0 pf_cd0 pf_tn0 pf_td0 pf_base0 pf_rep0].
@@ -388,7 +396,7 @@ Proof.
   rewrite (in_dq_of_dataclass p f Reporting el cx fr n (or_introl Hrep)).
   rewrite Hrep. cbn [sequence_of].
   rewrite (compute_counts_reporting p fr pf_tn0 pf_td0).
-  assert (Espan : span_of (complete fr) (f_rows fr) = span_of (has_data_reporting fr) (f_rows fr))
+  assert (Espan : span_of (complete (p_span_ignores_usage p) fr) (f_rows fr) = span_of (has_data_reporting fr) (f_rows fr))
     by (apply span_ext; apply complete_reporting; exact Hus).
   rewrite Espan.
   assert (Hpos : forall d, span_of (has_data_reporting fr) (f_rows fr) = Some d -> 1 <= d) by (intros d; apply span_of_pos).
@@ -421,80 +429,162 @@ Proof.
       cbn [check_cond]. rewrite Hg. cbn [andb]. apply (monthly_bad_spec p _ _ pf_cn0 pf_cd0). exact V.
 Qed.
 
+(* ------------------------------------------------------------------ from the criteria class to the data class *)
+
+Definition added_frame (fr : frame) : frame := mkframe true (f_has_ghi fr) (map clear_obs (f_rows fr)).
+
+Lemma dataclass_reporting : forall p f el cx fr, dataclass p f Reporting el cx fr = criteria p f Reporting el cx fr.
+Proof. reflexivity. Qed.
+
+Lemma dataclass_baseline_obs : forall p f el cx fr, f_has_obs fr = true ->
+  dataclass p f Baseline el cx fr = criteria p f Baseline el cx fr.
+Proof. intros p f el cx fr H. unfold dataclass, handed_frame. rewrite H. reflexivity. Qed.
+
+Lemma dataclass_baseline_added : forall p f el cx fr, f_has_obs fr = false -> p_baseline_adds_usage p f = true ->
+  dataclass p f Baseline el cx fr = criteria p f Baseline el cx (added_frame fr).
+Proof. intros p f el cx fr H Ha. unfold dataclass, handed_frame. rewrite H, Ha. reflexivity. Qed.
+
+Lemma dataclass_baseline_not_added : forall p f el cx fr, f_has_obs fr = false -> p_baseline_adds_usage p f = false ->
+  dataclass p f Baseline el cx fr = Raised AttributeError.
+Proof.
+  intros p f el cx fr H Ha. unfold dataclass, handed_frame. rewrite H, Ha. cbn [negb andb].
+  unfold criteria, dataclass_with_counts. cbn [is_reporting_flag]. rewrite H. reflexivity.
+Qed.
+
+Lemma added_rows_wf : forall fr, frame_wf fr -> f_has_obs fr = false -> map clear_obs (f_rows fr) = f_rows fr.
+Proof.
+  intros fr Hwf H. rewrite <- (map_id (f_rows fr)) at 2. apply map_ext_in. intros r Hin.
+  specialize (Hwf H r Hin). destruct r as [t m o tp cv g a]. cbn [r_obs] in Hwf. subst o. reflexivity.
+Qed.
+
+Lemma violates_baseline_added : forall f el fr n, frame_wf fr -> f_has_obs fr = false ->
+  (violates_baseline f el (added_frame fr) n <-> violates_baseline f el fr n).
+Proof.
+  intros f el fr n Hwf H. unfold violates_baseline, added_frame. cbn [f_rows f_has_ghi].
+  rewrite (added_rows_wf fr Hwf H).
+  assert (E : forall r, has_data_baseline {| f_has_obs := true; f_has_ghi := f_has_ghi fr; f_rows := f_rows fr |} r
+                        = has_data_baseline fr r) by reflexivity.
+  assert (Es : span_of (has_data_baseline {| f_has_obs := true; f_has_ghi := f_has_ghi fr; f_rows := f_rows fr |}) (f_rows fr)
+               = span_of (has_data_baseline fr) (f_rows fr)) by reflexivity.
+  rewrite Es. destruct n; try tauto.
+Qed.
+
+(* the baseline data class: a usage column is there, or it is added *)
+Lemma baseline_membership_dc : forall p f el cx fr n,
+  params_ok p = true -> frame_wf fr -> f_has_obs fr = true \/ p_baseline_adds_usage p f = true ->
+  (In n (dq_of (dataclass p f Baseline el cx fr)) <->
+   violates_baseline f el fr n \/ (n = OffcycleReads /\ offcycle_dq p f cx = true)).
+Proof.
+  intros p f el cx fr n Hok Hwf H. destruct (f_has_obs fr) eqn:Eo.
+  - rewrite (dataclass_baseline_obs p f el cx fr Eo). apply baseline_membership; assumption.
+  - destruct H as [H|H]; [discriminate H|]. rewrite (dataclass_baseline_added p f el cx fr Eo H).
+    rewrite (baseline_membership p f el cx (added_frame fr) n Hok eq_refl).
+    rewrite (violates_baseline_added f el fr n Hwf Eo). tauto.
+Qed.
+
+Lemma dataclass_accepts_dc : forall p f w el cx fr,
+  is_reporting_flag p f w = true \/ f_has_obs fr = true \/ (w = Baseline /\ p_baseline_adds_usage p f = true) ->
+  exists dq ws, dataclass p f w el cx fr = Accepted dq ws.
+Proof.
+  intros p f w el cx fr H. destruct w.
+  - destruct (f_has_obs fr) eqn:Eo.
+    + rewrite (dataclass_baseline_obs p f el cx fr Eo). apply criteria_accepts. right. exact Eo.
+    + destruct H as [H|[H|[_ H]]]; [discriminate H|discriminate H|].
+      rewrite (dataclass_baseline_added p f el cx fr Eo H). apply criteria_accepts. right. reflexivity.
+  - rewrite dataclass_reporting. apply criteria_accepts. destruct H as [H|[H|[H _]]]; [left; exact H|right; exact H|discriminate H].
+Qed.
+
+Lemma dataclass_raises_dc : forall p f w el cx fr e,
+  dataclass p f w el cx fr = Raised e <->
+  e = AttributeError /\ is_reporting_flag p f w = false /\ f_has_obs fr = false /\ (w = Reporting \/ p_baseline_adds_usage p f = false).
+Proof.
+  intros p f w el cx fr e. destruct w.
+  - destruct (f_has_obs fr) eqn:Eo.
+    + rewrite (dataclass_baseline_obs p f el cx fr Eo), criteria_raises. rewrite Eo. split; [intros [_ [_ H]]; discriminate H|intros [_ [_ [H _]]]; discriminate H].
+    + destruct (p_baseline_adds_usage p f) eqn:Ea.
+      * rewrite (dataclass_baseline_added p f el cx fr Eo Ea), criteria_raises. cbn [added_frame f_has_obs].
+        split; [intros [_ [_ H]]; discriminate H|intros [_ [_ [_ [H|H]]]]; discriminate H].
+      * rewrite (dataclass_baseline_not_added p f el cx fr Eo Ea). split.
+        -- intro H. injection H as <-. repeat split; try reflexivity. right. reflexivity.
+        -- intros [-> _]. reflexivity.
+  - rewrite dataclass_reporting, criteria_raises. split.
+    + intros [H1 [H2 H3]]. repeat split; try assumption. left. reflexivity.
+    + intros [H1 [H2 [H3 _]]]. repeat split; assumption.
+Qed.
+
+Lemma nodup_dq_of_dataclass_dc : forall p f w el cx fr, NoDup (dq_of (dataclass p f w el cx fr)).
+Proof. intros. unfold dataclass. apply nodup_dq_of_criteria. Qed.
+
 (* ------------------------------------------------------------------ packaged statements *)
 
 Lemma baseline_dq_exact_l : forall p f el cx fr,
-  params_ok p = true -> p_offcycle_dq p = false -> f_has_obs fr = true ->
+  params_ok p = true -> p_offcycle_dq p = false -> frame_wf fr ->
+  f_has_obs fr = true \/ p_baseline_adds_usage p f = true ->
   exists dq ws, dataclass p f Baseline el cx fr = Accepted dq ws /\ NoDup dq /\
     forall n, In n dq <-> violates_baseline f el fr n.
 Proof.
-  intros p f el cx fr Hok Hoff Hobs.
-  destruct (dataclass_accepts p f Baseline el cx fr (or_intror Hobs)) as [dq [ws E]].
+  intros p f el cx fr Hok Hoff Hwf Hobs.
+  destruct (dataclass_accepts_dc p f Baseline el cx fr) as [dq [ws E]].
+  { destruct Hobs as [H|H]; [right; left; exact H|right; right; split; [reflexivity|exact H]]. }
   exists dq, ws. split; [exact E|].
-  pose proof (nodup_dq_of_dataclass p f Baseline el cx fr) as Hnd.
-  pose proof (fun n => baseline_membership p f el cx fr n Hok Hobs) as Hm.
+  pose proof (nodup_dq_of_dataclass_dc p f Baseline el cx fr) as Hnd.
+  pose proof (fun n => baseline_membership_dc p f el cx fr n Hok Hwf Hobs) as Hm.
   rewrite E in Hnd, Hm. cbn [dq_of] in Hnd, Hm. split; [exact Hnd|].
   intro n. rewrite Hm. unfold offcycle_dq. rewrite Hoff, andb_false_r. split; [intros [H|[_ H]]; [exact H|discriminate H]|tauto].
 Qed.
 
 Lemma reporting_dq_exact_l : forall p f el cx fr,
-  params_ok p = true -> p_offcycle_dq p = false -> p_reporting_flag p f = true -> usage_irrelevant fr ->
+  params_ok p = true -> p_offcycle_dq p = false -> p_reporting_flag p f = true ->
+  p_span_ignores_usage p = true \/ usage_irrelevant fr ->
   exists dq ws, dataclass p f Reporting el cx fr = Accepted dq ws /\ NoDup dq /\
     forall n, In n dq <-> violates_reporting f fr n.
 Proof.
-  intros p f el cx fr Hok Hoff Hflag Hus.
-  destruct (dataclass_accepts p f Reporting el cx fr (or_introl Hflag)) as [dq [ws E]].
+  intros p f el cx fr Hok Hoff Hflag Hus. rewrite dataclass_reporting.
+  destruct (criteria_accepts p f Reporting el cx fr (or_introl Hflag)) as [dq [ws E]].
   exists dq, ws. split; [exact E|].
-  pose proof (nodup_dq_of_dataclass p f Reporting el cx fr) as Hnd.
+  pose proof (nodup_dq_of_criteria p f Reporting el cx fr) as Hnd.
   pose proof (fun n => reporting_membership p f el cx fr n Hok Hflag Hus) as Hm.
   rewrite E in Hnd, Hm. cbn [dq_of] in Hnd, Hm. split; [exact Hnd|].
   intro n. rewrite Hm. unfold offcycle_dq. rewrite Hoff, andb_false_r. split; [intros [H|[_ H]]; [exact H|discriminate H]|tauto].
 Qed.
 
-(* ------------------------------------------------------------------ the code as it is now (regenerated parameters) *)
+(* ------------------------------------------------------------------ the whole statement *)
 
-Lemma baseline_dq_exact_code_l : params_ok code_params = true -> forall f el cx fr, f_has_obs fr = true ->
-  exists dq ws, dataclass code_params f Baseline el cx fr = Accepted dq ws /\ NoDup dq /\
-    forall n, In n dq <->
-      violates_baseline f el fr n \/ (n = OffcycleReads /\ f = Billing /\ x_offcycle cx = true /\ gen_offcycle_dq = true).
+Record exact_facts (p : params) : Prop := {
+  ef_ok : params_ok p = true;
+  ef_rep : forall f, p_reporting_flag p f = true;
+  ef_off : p_offcycle_dq p = false;
+  ef_span : p_span_ignores_usage p = true;
+  ef_add : forall f, p_baseline_adds_usage p f = true
+}.
+
+Lemma params_exact_facts : forall p, params_exact p = true -> exact_facts p.
 Proof.
-  intros Hpub f el cx fr Hobs.
-  destruct (dataclass_accepts code_params f Baseline el cx fr (or_intror Hobs)) as [dq [ws E]].
-  exists dq, ws. split; [exact E|].
-  pose proof (nodup_dq_of_dataclass code_params f Baseline el cx fr) as Hnd.
-  pose proof (fun n => baseline_membership code_params f el cx fr n Hpub Hobs) as Hm.
-  rewrite E in Hnd, Hm. cbn [dq_of] in Hnd, Hm. split; [exact Hnd|].
-  intro n. rewrite Hm. apply or_iff_compat_l. unfold offcycle_dq. cbn [p_offcycle_dq code_params].
-  rewrite !andb_true_iff. split.
-  - intros [-> [[Hb Hx] Hg]]. split; [reflexivity|]. split; [destruct f; try discriminate Hb; reflexivity|]. tauto.
-  - intros [-> [-> [Hx Hg]]]. split; [reflexivity|]. rewrite Hx, Hg. simpl. tauto.
+  intros p H. unfold params_exact in H. rewrite !andb_true_iff in H.
+  destruct H as [[[[H1 H2] H3] H4] H5]. rewrite forallb_forall in H2, H5. apply negb_true_iff in H3.
+  constructor; try assumption.
+  - intro f. apply H2. destruct f; simpl; tauto.
+  - intro f. apply H5. destruct f; simpl; tauto.
 Qed.
 
-Lemma reporting_dq_exact_code_l : params_ok code_params = true -> forall f el cx fr, gen_reporting_flag f = true -> usage_irrelevant fr ->
-  exists dq ws, dataclass code_params f Reporting el cx fr = Accepted dq ws /\ NoDup dq /\
-    forall n, In n dq <->
-      violates_reporting f fr n \/ (n = OffcycleReads /\ f = Billing /\ x_offcycle cx = true /\ gen_offcycle_dq = true).
+(* every frame (that respects the representation invariant) is accepted by all six data classes and the reported
+   set is exactly the set of violated criteria *)
+Lemma statement_l : forall p, params_exact p = true -> forall f w el cx fr, frame_wf fr ->
+  exists dq ws, dataclass p f w el cx fr = Accepted dq ws /\ NoDup dq /\
+    forall n, In n dq <-> match w with Baseline => violates_baseline f el fr n | Reporting => violates_reporting f fr n end.
 Proof.
-  intros Hpub f el cx fr Hflag Hus.
-  assert (Hf : p_reporting_flag code_params f = true) by exact Hflag.
-  destruct (dataclass_accepts code_params f Reporting el cx fr (or_introl Hf)) as [dq [ws E]].
-  exists dq, ws. split; [exact E|].
-  pose proof (nodup_dq_of_dataclass code_params f Reporting el cx fr) as Hnd.
-  pose proof (fun n => reporting_membership code_params f el cx fr n Hpub Hf Hus) as Hm.
-  rewrite E in Hnd, Hm. cbn [dq_of] in Hnd, Hm. split; [exact Hnd|].
-  intro n. rewrite Hm. apply or_iff_compat_l. unfold offcycle_dq. cbn [p_offcycle_dq code_params].
-  rewrite !andb_true_iff. split.
-  - intros [-> [[Hb Hx] Hg]]. split; [reflexivity|]. split; [destruct f; try discriminate Hb; reflexivity|]. tauto.
-  - intros [-> [-> [Hx Hg]]]. split; [reflexivity|]. rewrite Hx, Hg. simpl. tauto.
+  intros p Hex f w el cx fr Hwf. destruct (params_exact_facts p Hex) as [Hok Hrep Hoff Hspan Hadd]. destruct w.
+  - apply baseline_dq_exact_l; try assumption. right. apply Hadd.
+  - apply reporting_dq_exact_l; try assumption; [apply Hrep|left; exact Hspan].
 Qed.
 
 (* ------------------------------------------------------------------ warnings never change the verdict *)
 
 Lemma warnings_never_change_verdict_l : forall p f w el cx cx' fr,
   p_offcycle_dq p = false \/ x_offcycle cx = x_offcycle cx' ->
-  dq_of (dataclass p f w el cx fr) = dq_of (dataclass p f w el cx' fr).
+  dq_of (criteria p f w el cx fr) = dq_of (criteria p f w el cx' fr).
 Proof.
-  intros p f w el cx cx' fr H. unfold dataclass, dataclass_with_counts.
+  intros p f w el cx cx' fr H. unfold criteria, dataclass_with_counts.
   destruct (negb (is_reporting_flag p f w) && negb (f_has_obs fr)); [reflexivity|].
   destruct (run_sequence _ _ _ _ _ _) as [dq ws]. cbn [dq_of].
   destruct H as [H|H]; [rewrite H, !andb_false_r; reflexivity|rewrite H; reflexivity].
@@ -502,7 +592,7 @@ Qed.
 
 (* the four warnings are exactly what the context and the extreme-value rule say, whatever the verdict *)
 Lemma warnings_spec_l : forall p f w el cx fr dq ws n,
-  dataclass p f w el cx fr = Accepted dq ws ->
+  criteria p f w el cx fr = Accepted dq ws ->
   (In n ws <->
    match n with
    | ExtremeValues => In CExtreme (sequence_of p f w) /\ is_reporting_flag p f w = false /\ has_extreme (f_rows fr) = true
@@ -511,7 +601,7 @@ Lemma warnings_spec_l : forall p f w el cx fr dq ws n,
    | OffcycleWarning => is_billing f = true /\ x_offcycle cx = true /\ p_offcycle_dq p = false
    end).
 Proof.
-  intros p f w el cx fr dq ws n H. unfold dataclass, dataclass_with_counts in H.
+  intros p f w el cx fr dq ws n H. unfold criteria, dataclass_with_counts in H.
   destruct (negb (is_reporting_flag p f w) && negb (f_has_obs fr)); [discriminate H|].
   destruct (run_sequence p (is_reporting_flag p f w) (electric_flag f w el) fr
               (compute_counts p (is_reporting_flag p f w) fr) (sequence_of p f w)) as [dq0 ws0] eqn:Ers.
@@ -673,29 +763,33 @@ Proof.
     apply Hr in Hlt. exact (Qlt_not_le _ _ Hlt B').
 Qed.
 
-Lemma shape_complete_ts : forall o g rows rows', Forall2 same_shape rows rows' ->
-  complete_ts (mkframe o g rows) = complete_ts (mkframe o g rows').
+Lemma shape_complete : forall ign o g l l' r r', same_shape r r' ->
+  complete ign (mkframe o g l) r = complete ign (mkframe o g l') r'.
 Proof.
-  intros o g rows rows' H. unfold complete_ts. cbn [f_rows].
-  induction H as [|r r' l l' Hr Hl IH]; [reflexivity|]. cbn [filter].
-  assert (Ec : complete (mkframe o g (r :: l)) r = complete (mkframe o g (r' :: l')) r').
-  { unfold complete. cbn [f_has_obs f_has_ghi]. rewrite (shape_usage_present r r' Hr).
-    destruct Hr as [_ [_ [E3 [E4 [E5 [E6 _]]]]]]. rewrite E3, E4, E5, E6. reflexivity. }
-  assert (Ec1 : forall x l1 l2, complete (mkframe o g l1) x = complete (mkframe o g l2) x) by reflexivity.
-  rewrite (Ec1 r (r :: l) l) in *. rewrite (Ec1 r' (r' :: l') l') in *.
-  rewrite <- Ec. destruct (complete (mkframe o g l) r).
-  - cbn [map]. destruct Hr as [E1 _]. rewrite E1. f_equal.
-    rewrite (filter_ext (complete (mkframe o g (r :: l))) (complete (mkframe o g l))) by reflexivity.
-    rewrite (filter_ext (complete (mkframe o g (r' :: l'))) (complete (mkframe o g l'))) by reflexivity. exact IH.
-  - rewrite (filter_ext (complete (mkframe o g (r :: l))) (complete (mkframe o g l))) by reflexivity.
-    rewrite (filter_ext (complete (mkframe o g (r' :: l'))) (complete (mkframe o g l'))) by reflexivity. exact IH.
+  intros ign o g l l' r r' Hr. unfold complete. cbn [f_has_obs f_has_ghi]. rewrite (shape_usage_present r r' Hr).
+  destruct Hr as [_ [_ [E3 [E4 [E5 [E6 _]]]]]]. rewrite E3, E4, E5, E6. reflexivity.
+Qed.
+
+Lemma shape_complete_filter : forall ign o g l0 l0' rows rows', Forall2 same_shape rows rows' ->
+  map r_ts (filter (complete ign (mkframe o g l0)) rows) = map r_ts (filter (complete ign (mkframe o g l0')) rows').
+Proof.
+  intros ign o g l0 l0' rows rows' H. induction H as [|r r' l l' Hr Hl IH]; [reflexivity|]. cbn [filter].
+  rewrite <- (shape_complete ign o g l0 l0' r r' Hr). destruct (complete ign (mkframe o g l0) r).
+  - cbn [map]. destruct Hr as [E1 _]. rewrite E1, IH. reflexivity.
+  - exact IH.
+Qed.
+
+Lemma shape_complete_ts : forall ign o g rows rows', Forall2 same_shape rows rows' ->
+  complete_ts ign (mkframe o g rows) = complete_ts ign (mkframe o g rows').
+Proof.
+  intros ign o g rows rows' H. unfold complete_ts. cbn [f_rows]. apply shape_complete_filter. exact H.
 Qed.
 
 Lemma shape_counts : forall p is_rep o g rows rows', Forall2 same_shape rows rows' ->
   compute_counts p is_rep (mkframe o g rows) = compute_counts p is_rep (mkframe o g rows').
 Proof.
   intros p is_rep o g rows rows' H. unfold compute_counts, n_days_total. cbn [f_rows].
-  rewrite (shape_complete_ts o g rows rows' H).
+  rewrite (shape_complete_ts (is_rep && p_span_ignores_usage p) o g rows rows' H).
   assert (Ht : forall r r', same_shape r r' -> valid_temp_row p r = valid_temp_row p r').
   { intros r r' Hr. unfold valid_temp_row. destruct Hr as [_ [_ [_ [E _]]]]. rewrite E. reflexivity. }
   assert (Hm : forall r r', same_shape r r' -> valid_meter_row r = valid_meter_row r') by exact shape_usage_present.
@@ -707,9 +801,9 @@ Qed.
 
 Lemma usage_magnitude_never_changes_verdict_l : forall p f w el cx o g rows rows',
   Forall2 same_shape rows rows' ->
-  dq_of (dataclass p f w el cx (mkframe o g rows)) = dq_of (dataclass p f w el cx (mkframe o g rows')).
+  dq_of (criteria p f w el cx (mkframe o g rows)) = dq_of (criteria p f w el cx (mkframe o g rows')).
 Proof.
-  intros p f w el cx o g rows rows' H. unfold dataclass, dataclass_with_counts. cbn [f_has_obs].
+  intros p f w el cx o g rows rows' H. unfold criteria, dataclass_with_counts. cbn [f_has_obs].
   destruct (negb (is_reporting_flag p f w) && negb o); [reflexivity|].
   rewrite (shape_counts p (is_reporting_flag p f w) o g rows rows' H).
   set (c := compute_counts p (is_reporting_flag p f w) (mkframe o g rows')).
@@ -731,18 +825,56 @@ Proof.
   cbn [fst] in E. cbn [dq_of]. rewrite E. reflexivity.
 Qed.
 
-(* ------------------------------------------------------------------ the code where it leaves the statement, characterised *)
+(* ------------------------------------------------------------------ the same three facts for the data classes *)
+
+Lemma warnings_never_change_verdict_dc : forall p f w el cx cx' fr,
+  p_offcycle_dq p = false \/ x_offcycle cx = x_offcycle cx' ->
+  dq_of (dataclass p f w el cx fr) = dq_of (dataclass p f w el cx' fr).
+Proof. intros p f w el cx cx' fr H. unfold dataclass. apply warnings_never_change_verdict_l. exact H. Qed.
+
+Lemma warnings_spec_dc : forall p f w el cx fr dq ws n,
+  dataclass p f w el cx fr = Accepted dq ws ->
+  (In n ws <->
+   match n with
+   | ExtremeValues => In CExtreme (sequence_of p f w) /\ is_reporting_flag p f w = false
+                      /\ has_extreme (f_rows (handed_frame p f w fr)) = true
+   | UtcIndex => x_utc cx = true
+   | UnverifiableTemperature => is_hourly f = false /\ x_unverifiable cx = true
+   | OffcycleWarning => is_billing f = true /\ x_offcycle cx = true /\ p_offcycle_dq p = false
+   end).
+Proof. intros p f w el cx fr dq ws n H. unfold dataclass in H. exact (warnings_spec_l p f w el cx _ dq ws n H). Qed.
+
+Lemma shape_clear_obs : forall rows rows', Forall2 same_shape rows rows' ->
+  Forall2 same_shape (map clear_obs rows) (map clear_obs rows').
+Proof.
+  intros rows rows' H. induction H as [|r r' l l' Hr Hl IH]; [constructor|]. cbn [map]. constructor; [|exact IH].
+  destruct Hr as [E1 [E2 [E3 [E4 [E5 [E6 _]]]]]]. unfold same_shape, clear_obs.
+  cbn [r_ts r_month r_temp r_cov r_ghi r_aux r_obs]. tauto.
+Qed.
+
+Lemma usage_magnitude_never_changes_verdict_dc : forall p f w el cx o g rows rows',
+  Forall2 same_shape rows rows' ->
+  dq_of (dataclass p f w el cx (mkframe o g rows)) = dq_of (dataclass p f w el cx (mkframe o g rows')).
+Proof.
+  intros p f w el cx o g rows rows' H. unfold dataclass, handed_frame. cbn [f_has_obs f_has_ghi f_rows]. destruct w.
+  - destruct (negb o && p_baseline_adds_usage p f).
+    + apply usage_magnitude_never_changes_verdict_l. apply shape_clear_obs. exact H.
+    + apply usage_magnitude_never_changes_verdict_l. exact H.
+  - apply usage_magnitude_never_changes_verdict_l. exact H.
+Qed.
+
+(* ------------------------------------------------------------------ regression: what a parameter record without the repairs reports *)
 
 Lemma hourly_reporting_as_coded_l : forall p el cx fr n,
   params_ok p = true -> p_reporting_flag p Hourly = false -> f_has_obs fr = true ->
-  (In n (dq_of (dataclass p Hourly Reporting el cx fr)) <-> violates_reporting_as_baseline fr n).
+  (In n (dq_of (criteria p Hourly Reporting el cx fr)) <-> violates_reporting_as_baseline fr n).
 Proof.
   intros p el cx fr n Hok Hflag Hobs. pose proof (params_ok_facts p Hok) as F. destruct F as [pf_max0 pf_min0 pf_cn0 pf_cd0 pf_tn0 pf_td0 pf_base0 pf_rep0].
   assert (Hrep : is_reporting_flag p Hourly Reporting = false) by exact Hflag.
   rewrite (in_dq_of_dataclass p Hourly Reporting el cx fr n (or_intror Hobs)).
   rewrite Hrep. cbn [sequence_of].
   rewrite (compute_counts_baseline p fr pf_tn0 pf_td0).
-  assert (Hpos : forall d, span_of (complete fr) (f_rows fr) = Some d -> 1 <= d) by (intros d; apply span_of_pos).
+  assert (Hpos : forall d, span_of (complete false fr) (f_rows fr) = Some d -> 1 <= d) by (intros d; apply span_of_pos).
   assert (Hoff : offcycle_dq p Hourly cx = false) by reflexivity.
   rewrite Hoff.
   split.
@@ -752,7 +884,7 @@ Proof.
       cbn [check_cond c_total c_valid c_meter c_temp negb andb] in Hc;
       try (exfalso; simpl in Hin; intuition discriminate).
     + apply negb_true_iff in Hc. apply span_none_iff.
-      destruct (span_of (complete fr) (f_rows fr)); [discriminate Hc|reflexivity].
+      destruct (span_of (complete false fr) (f_rows fr)); [discriminate Hc|reflexivity].
     + apply (under_spec p _ _ pf_cn0 pf_cd0 Hpos). exact Hc.
     + apply (under_spec p _ _ pf_cn0 pf_cd0 Hpos). exact Hc.
     + apply (monthly_bad_spec p _ _ pf_cn0 pf_cd0). exact Hc.
@@ -774,16 +906,16 @@ Qed.
 
 
 Lemma reporting_as_coded_l : forall p f el cx fr n,
-  params_ok p = true -> p_reporting_flag p f = true ->
-  (In n (dq_of (dataclass p f Reporting el cx fr)) <->
+  params_ok p = true -> p_reporting_flag p f = true -> p_span_ignores_usage p = false ->
+  (In n (dq_of (criteria p f Reporting el cx fr)) <->
    violates_reporting_span_over_usage f fr n \/ (n = OffcycleReads /\ offcycle_dq p f cx = true)).
 Proof.
-  intros p f el cx fr n Hok Hflag. pose proof (params_ok_facts p Hok) as F. destruct F as [pf_max0 pf_min0 pf_cn0 pf_cd0 pf_tn0 pf_td0 pf_base0 pf_rep0].
+  intros p f el cx fr n Hok Hflag Hspan. pose proof (params_ok_facts p Hok) as F. destruct F as [pf_max0 pf_min0 pf_cn0 pf_cd0 pf_tn0 pf_td0 pf_base0 pf_rep0].
   assert (Hrep : is_reporting_flag p f Reporting = true) by exact Hflag.
   rewrite (in_dq_of_dataclass p f Reporting el cx fr n (or_introl Hrep)).
   rewrite Hrep. cbn [sequence_of].
-  rewrite (compute_counts_reporting p fr pf_tn0 pf_td0).
-  assert (Hpos : forall d, span_of (complete fr) (f_rows fr) = Some d -> 1 <= d) by (intros d; apply span_of_pos).
+  rewrite (compute_counts_reporting p fr pf_tn0 pf_td0). rewrite Hspan.
+  assert (Hpos : forall d, span_of (complete false fr) (f_rows fr) = Some d -> 1 <= d) by (intros d; apply span_of_pos).
   apply or_iff_compat_r.
   unfold violates_reporting_span_over_usage.
   split.
@@ -792,7 +924,7 @@ Proof.
       cbn [check_cond c_total c_valid c_meter c_temp negb andb] in Hc;
       try (exfalso; destruct f; simpl in Hin; intuition discriminate).
     + apply negb_true_iff in Hc. apply span_none_iff.
-      destruct (span_of (complete fr) (f_rows fr)); [discriminate Hc|reflexivity].
+      destruct (span_of (complete false fr) (f_rows fr)); [discriminate Hc|reflexivity].
     + apply (under_spec p _ _ pf_cn0 pf_cd0 Hpos). exact Hc.
     + apply (under_spec p _ _ pf_cn0 pf_cd0 Hpos). exact Hc.
     + apply (monthly_bad_spec p _ _ pf_cn0 pf_cd0). exact Hc.
@@ -814,34 +946,7 @@ Proof.
 Qed.
 
 
-(* ------------------------------------------------------------------ the whole statement for the code as it is: partial + refuted *)
-
-(* what the statement demands of the six data classes, for the parameters the code has now *)
-Definition statement_at (f : family) (w : period) (el : bool) (cx : ctx) (fr : frame) : Prop :=
-  exists dq ws, dataclass code_params f w el cx fr = Accepted dq ws /\
-    forall n, In n dq <-> match w with Baseline => violates_baseline f el fr n | Reporting => violates_reporting f fr n end.
-
-(* the region in which the code satisfies it: a usage column for baseline data; for reporting data the criteria class
-   is told that it is reporting data and the usage column is absent or complete; no off-cycle billing read
-   (or off-cycle reads go to the warnings) *)
-Definition guard (f : family) (w : period) (cx : ctx) (fr : frame) : Prop :=
-  match w with
-  | Baseline => f_has_obs fr = true
-  | Reporting => gen_reporting_flag f = true /\ usage_irrelevant fr
-  end /\ (gen_offcycle_dq = false \/ f <> Billing \/ x_offcycle cx = false).
-
-Lemma statement_partial_l : params_ok code_params = true ->
-  forall f w el cx fr, guard f w cx fr -> statement_at f w el cx fr.
-Proof.
-  intros Hpub f w el cx fr [Hw Hoff]. unfold statement_at.
-  assert (Hno : forall n, ~ (n = OffcycleReads /\ f = Billing /\ x_offcycle cx = true /\ gen_offcycle_dq = true)).
-  { intros n [_ [Hb [Hx Hg]]]. destruct Hoff as [H|[H|H]]; congruence. }
-  destruct w.
-  - destruct (baseline_dq_exact_code_l Hpub f el cx fr Hw) as [dq [ws [E [_ Hm]]]]. exists dq, ws. split; [exact E|].
-    intro n. rewrite Hm. specialize (Hno n). tauto.
-  - destruct Hw as [Hf Hu]. destruct (reporting_dq_exact_code_l Hpub f el cx fr Hf Hu) as [dq [ws [E [_ Hm]]]].
-    exists dq, ws. split; [exact E|]. intro n. rewrite Hm. specialize (Hno n). tauto.
-Qed.
+(* ------------------------------------------------------------------ regression witnesses: each repair is needed *)
 
 (* example frames: n daily rows from the epoch, all in month 1 *)
 Definition ex_row (i : nat) (o : option Q) (t : bool) : row :=
@@ -855,24 +960,18 @@ Definition ex_no_usage (n : nat) : list row := map (fun i => ex_row i None true)
 Definition cx0 : ctx := mkctx false false false.
 Definition cx_off : ctx := mkctx false false true.
 
-(* (1) a baseline without any usage: the data class drops the column and the criteria class raises (C10-F3) *)
-Lemma refuted_no_usage_l : forall p f el cx rows,
-  dataclass p f Baseline el cx (mkframe false false rows) = Raised AttributeError.
-Proof. reflexivity. Qed.
+(* (1) without the added usage column a baseline whose usage is entirely missing raises (was C10-F3) *)
+Lemma without_added_column_l : forall p f el cx g rows, p_baseline_adds_usage p f = false ->
+  dataclass p f Baseline el cx (mkframe false g rows) = Raised AttributeError.
+Proof. intros p f el cx g rows H. apply dataclass_baseline_not_added; [reflexivity|exact H]. Qed.
 
-Lemma statement_refuted_l : ~ (forall f w el cx fr, statement_at f w el cx fr).
-Proof.
-  intro S. destruct (S Daily Baseline true cx0 (mkframe false false (ex_no_usage 340))) as [dq [ws [E _]]].
-  rewrite refuted_no_usage_l in E. discriminate E.
-Qed.
-
-(* (2) off-cycle billing reads change the verdict when they are appended to .disqualification (C10-F1) *)
-Lemma refuted_offcycle_l : forall p el fr, params_ok p = true -> p_offcycle_dq p = true -> f_has_obs fr = true ->
+(* (2) off-cycle billing reads change the verdict when they are appended to .disqualification (was C10-F1) *)
+Lemma without_offcycle_warning_l : forall p el fr, params_ok p = true -> p_offcycle_dq p = true -> f_has_obs fr = true ->
   In OffcycleReads (dq_of (dataclass p Billing Baseline el cx_off fr)) /\
   ~ In OffcycleReads (dq_of (dataclass p Billing Baseline el cx0 fr)) /\
   ~ violates_baseline Billing el fr OffcycleReads.
 Proof.
-  intros p el fr Hok Hoff Hobs. split; [|split].
+  intros p el fr Hok Hoff Hobs. rewrite !(dataclass_baseline_obs p Billing el _ fr Hobs). split; [|split].
   - apply (baseline_membership p Billing el cx_off fr OffcycleReads Hok Hobs). right. split; [reflexivity|].
     unfold offcycle_dq. rewrite Hoff. reflexivity.
   - intro H. apply (baseline_membership p Billing el cx0 fr OffcycleReads Hok Hobs) in H.
@@ -880,14 +979,14 @@ Proof.
   - intro V. exact V.
 Qed.
 
-(* (3) hourly reporting data without usage, temperature complete: reported as "no data" when the criteria class is
-   not told that the data is reporting data (C10-F2) *)
-Lemma hourly_reporting_no_usage_l : forall p el cx n, (0 < n)%nat ->
+(* (3) hourly reporting data without usage, temperature complete: "no data" when the criteria class is not told
+   that the data is reporting data (was C10-F2) *)
+Lemma without_reporting_flag_l : forall p el cx n, (0 < n)%nat ->
   params_ok p = true -> p_reporting_flag p Hourly = false ->
   let fr := mkframe true false (ex_no_usage n) in
   In NoData (dq_of (dataclass p Hourly Reporting el cx fr)) /\ ~ violates_reporting Hourly fr NoData.
 Proof.
-  intros p el cx n Hn Hok Hflag. cbn zeta. split.
+  intros p el cx n Hn Hok Hflag. cbn zeta. rewrite dataclass_reporting. split.
   - apply (hourly_reporting_as_coded_l p el cx (mkframe true false (ex_no_usage n)) NoData Hok Hflag eq_refl).
     cbn [violates_reporting_as_baseline f_rows]. intros r Hin. unfold ex_no_usage in Hin.
     apply in_map_iff in Hin. destruct Hin as [i [<- _]]. reflexivity.
@@ -898,44 +997,57 @@ Proof.
 Qed.
 
 (* (4) daily reporting data, usage on the first 100 of 300 days, temperature missing on 31 days: the criteria say
-   "under 90 % of days with valid temperature" (268 of 300), the code measures against the 100 days with usage (C10-F4) *)
+   "under 90 % of days with valid temperature" (268 of 300); without the repair the code measured against the 100 days
+   with usage (was C10-F4) *)
 Definition ex_rep_partial : frame :=
   mkframe true false
     (map (fun i => ex_row i (if Nat.ltb i 100 then Some (5 # 1)%Q else None) (negb (Nat.leb 150 i && Nat.ltb i 181))) (seq 0 300)).
 
 Lemma reporting_partial_usage_gen : forall p f el cx fr d1 d2 k, params_ok p = true -> p_reporting_flag p f = true ->
-  span_of (complete fr) (f_rows fr) = Some d1 -> span_of (has_data_reporting fr) (f_rows fr) = Some d2 ->
+  p_span_ignores_usage p = false ->
+  span_of (complete false fr) (f_rows fr) = Some d1 -> span_of (has_data_reporting fr) (f_rows fr) = Some d2 ->
   whole_days temp_valid90 (f_rows fr) = k -> 9 * d1 <= 10 * k -> 10 * k < 9 * d2 ->
   ~ In TooManyDaysMissingTemperature (dq_of (dataclass p f Reporting el cx fr)) /\
   violates_reporting f fr TooManyDaysMissingTemperature.
 Proof.
-  intros p f el cx fr d1 d2 k Hok Hflag E1 E3 E2 H1 H2. split.
-  - intro H. apply (reporting_as_coded_l p f el cx fr _ Hok Hflag) in H.
+  intros p f el cx fr d1 d2 k Hok Hflag Hspan E1 E3 E2 H1 H2. rewrite dataclass_reporting. split.
+  - intro H. apply (reporting_as_coded_l p f el cx fr _ Hok Hflag Hspan) in H.
     destruct H as [H|[H _]]; [|discriminate H].
     unfold violates_reporting_span_over_usage in H. rewrite E1, E2 in H. unfold under90 in H. lia.
   - unfold violates_reporting. rewrite E3, E2. unfold under90. exact H2.
 Qed.
 
 Lemma ex_rep_partial_facts :
-  span_of (complete ex_rep_partial) (f_rows ex_rep_partial) = Some 100 /\
+  span_of (complete false ex_rep_partial) (f_rows ex_rep_partial) = Some 100 /\
   span_of (has_data_reporting ex_rep_partial) (f_rows ex_rep_partial) = Some 300 /\
   whole_days temp_valid90 (f_rows ex_rep_partial) = 268.
 Proof. vm_compute. repeat split. Qed.
 
-Lemma reporting_partial_usage_l : forall p f el cx, params_ok p = true -> p_reporting_flag p f = true ->
+Lemma without_span_repair_l : forall p f el cx, params_ok p = true -> p_reporting_flag p f = true ->
+  p_span_ignores_usage p = false ->
   ~ In TooManyDaysMissingTemperature (dq_of (dataclass p f Reporting el cx ex_rep_partial)) /\
   violates_reporting f ex_rep_partial TooManyDaysMissingTemperature.
 Proof.
-  intros p f el cx Hok Hflag. destruct ex_rep_partial_facts as [E1 [E3 E2]].
-  exact (reporting_partial_usage_gen p f el cx ex_rep_partial 100 300 268 Hok Hflag E1 E3 E2 ltac:(lia) ltac:(lia)).
+  intros p f el cx Hok Hflag Hspan. destruct ex_rep_partial_facts as [E1 [E3 E2]].
+  exact (reporting_partial_usage_gen p f el cx ex_rep_partial 100 300 268 Hok Hflag Hspan E1 E3 E2 ltac:(lia) ltac:(lia)).
 Qed.
 
 (* ------------------------------------------------------------------ non-vacuity witnesses (the statement's own parameters) *)
 
-(* a 340-day baseline with everything present: qualified; the guard holds *)
-Lemma ex_baseline_clean : guard Daily Baseline cx0 (mkframe true false (ex_full 340)) /\
+Lemma ex_published_exact : params_exact published = true.
+Proof. vm_compute. reflexivity. Qed.
+
+Lemma ex_frames_wf : frame_wf (mkframe true false (ex_full 340)) /\ frame_wf (mkframe false false (ex_no_usage 340)) /\
+  frame_wf ex_rep_partial.
+Proof.
+  split; [|split]; intro H; try discriminate H.
+  intros r Hin. cbn [f_rows] in Hin. unfold ex_no_usage in Hin. apply in_map_iff in Hin. destruct Hin as [i [<- _]]. reflexivity.
+Qed.
+
+(* a 340-day baseline with everything present: qualified *)
+Lemma ex_baseline_clean :
   dataclass published Daily Baseline false cx0 (mkframe true false (ex_full 340)) = Accepted [] [].
-Proof. split; [split; [reflexivity|right; left; discriminate]|vm_compute; reflexivity]. Qed.
+Proof. vm_compute. reflexivity. Qed.
 
 (* 340 days, temperature missing on 34 days: 305 valid whole days of 340 -> under 90 %; on 33 days: 306 -> exactly 90 %, passes *)
 Lemma ex_baseline_threshold :
@@ -953,10 +1065,21 @@ Lemma ex_span_limits :
 Proof. vm_compute. reflexivity. Qed.
 
 Lemma ex_reporting_verdict :
-  usage_irrelevant (mkframe false false (ex_temp_gap 300 150 31 None)) /\
   dq_of (dataclass published Daily Reporting true cx0 (mkframe false false (ex_temp_gap 300 150 31 None)))
   = [TooManyDaysMissingData; TooManyDaysMissingTemperature; MissingMonthlyTemperature].
-Proof. split; [left; reflexivity|vm_compute; reflexivity]. Qed.
+Proof. vm_compute. reflexivity. Qed.
+
+(* the four repaired corners under the statement's parameters: a baseline without any usage is reported as having no
+   data; an off-cycle read only warns; temperature-only hourly reporting data is qualified; reporting data with usage
+   on part of the days is judged against the whole span *)
+Lemma ex_repaired_corners :
+  dataclass published Daily Baseline true cx0 (mkframe false false (ex_no_usage 340))
+  = Accepted [NoData; TooManyDaysMissingData; TooManyDaysMissingMeter; TooManyDaysMissingTemperature] [] /\
+  dataclass published Billing Baseline true cx_off (mkframe true false (ex_full 340)) = Accepted [] [OffcycleWarning] /\
+  dataclass published Hourly Reporting true cx0 (mkframe true false (ex_no_usage 340)) = Accepted [] [] /\
+  dq_of (dataclass published Daily Reporting true cx0 ex_rep_partial)
+  = [TooManyDaysMissingData; TooManyDaysMissingTemperature; MissingMonthlyTemperature].
+Proof. repeat split; vm_compute; reflexivity. Qed.
 
 (* negative usage: disqualifies gas, not electricity; an extreme value only warns *)
 Definition ex_negative : list row :=
@@ -977,7 +1100,9 @@ Proof.
   destruct (Nat.eqb i 9); split; intro H; vm_compute in H; discriminate H.
 Qed.
 
+(* the parameter record without the repairs: the hypotheses of the regression lemmas are satisfiable *)
 Lemma ex_as_coded : params_ok as_coded = true /\ p_reporting_flag as_coded Hourly = false /\ p_offcycle_dq as_coded = true /\
+  p_span_ignores_usage as_coded = false /\ p_baseline_adds_usage as_coded Daily = false /\
   dq_of (dataclass as_coded Hourly Reporting true cx0 (mkframe true false (ex_no_usage 340)))
   = [NoData; TooManyDaysMissingData; TooManyDaysMissingTemperature] /\
   dq_of (dataclass as_coded Daily Reporting true cx0 ex_rep_partial) = [MissingMonthlyTemperature] /\
